@@ -9,9 +9,9 @@ UNITS = {
     'validated': {'template': 'units/validated/unit.rs', 'serves': ['C09', 'C10', 'C03'], 'min_verified': 84},
     'shred_auth': {'template': 'units/shred_auth/unit.rs', 'serves': ['C12'], 'min_verified': 22},
     'rs_codec': {'template': 'units/rs_codec/unit.rs', 'serves': ['C11', 'C13'], 'min_verified': 34},
-    'wire': {'template': 'units/wire/unit.rs', 'serves': ['C19', 'C10'], 'min_verified': 31},
+    'wire': {'template': 'units/wire/unit.rs', 'serves': ['C19', 'C10'], 'min_verified': 36},
     'pool': {'template': 'units/pool/unit.rs', 'serves': ['C04', 'C08', 'C18', 'C03', 'C10', 'C06'], 'min_verified': 125},
-    'blockdata': {'template': 'units/blockdata/unit.rs', 'serves': ['C13', 'C10', 'C12', 'C14'], 'min_verified': 62},
+    'blockdata': {'template': 'units/blockdata/unit.rs', 'serves': ['C13', 'C10', 'C12', 'C14'], 'min_verified': 63},
     'routing': {'template': 'units/routing/unit.rs', 'serves': ['C16'], 'min_verified': 65},
     'votor': {'template': 'units/votor/unit.rs', 'serves': ['C05', 'C18'], 'min_verified': 60},
     'parent_ready': {'template': 'units/parent_ready/unit.rs', 'serves': ['C07'], 'min_verified': 64},
